@@ -387,6 +387,9 @@ class ArgumentParser:
             add_help=False,
             exit_on_error=False,
             allow_abbrev=False,
+            # A later rule for the same flag (a user configuration extending
+            # a built-in compiler) replaces the earlier one.
+            conflict_handler="resolve",
         )
         parser.add_argument("-D", dest="defines", action="append")
         parser.add_argument("-I", dest="include_paths", action="append")
